@@ -230,8 +230,15 @@ def writer_paths(P, fn):
                                         if e2[0] == 'w' and e2[1] != 'bytes':
                                             t2 = B.blocks[e2[-1]]['t']
                                             c2 = _canon(B, t2['args'][1])
-                                            while c2[0] == 'cast':
-                                                c2 = c2[2]
+                                            for _k in range(4):
+                                                if c2[0] == 'cast':
+                                                    c2 = c2[2]
+                                                elif c2[0] == 'place' and isinstance(c2[1], tuple) and c2[1][0] == 'call' and (str(c2[1][1]).endswith('::try_from') or str(c2[1][1]).endswith('::try_into')) \
+                                                        and tuple(c2[2]) == ('as:Ok', '0'):
+                                                    # a checked conversion hands the value on unchanged
+                                                    c2 = _canon(B, B.blocks[c2[1][2]]['t']['args'][0])
+                                                else:
+                                                    break
                                             if c2 == endc:
                                                 key = k2
                     layout.append('bytes[%s]' % ('#%d' % key if key is not None else '?'))
